@@ -1158,7 +1158,7 @@ func (s *PrintCtx) pcAppendStringKey(str string) {
 		// s.WriteString(strconv.Quote(str))
 		// s.Grow(2 + len([]byte(str)))
 		s.checkerr(s.WriteByte('"'))
-		_, _ = s.WriteString(str)
+		s.appendEscapedJSONString(str) // a member name is a JSON string too
 		s.checkerr(s.WriteByte('"'))
 	} else {
 		_, _ = s.WriteString(str)
@@ -1171,9 +1171,9 @@ func (s *PrintCtx) pcAppendStringKeyPrefixed(str, prefix string) {
 		// s.WriteString(strconv.Quote(str))
 		// s.Grow(2 + len([]byte(str)))
 		s.checkerr(s.WriteByte('"'))
-		_, _ = s.WriteString(prefix)
+		s.appendEscapedJSONString(prefix)
 		s.checkerr(s.WriteByte('.'))
-		_, _ = s.WriteString(str)
+		s.appendEscapedJSONString(str)
 		s.checkerr(s.WriteByte('"'))
 	} else {
 		_, _ = s.WriteString(prefix)
